@@ -2,7 +2,7 @@
 from __future__ import annotations
 
 from .. import impl
-from ..explore import explore_roots, get_mm, structure_roundtrip, leaf_exc, localize
+from ..explore import explore_roots, get_mm, structure_roundtrip, leaf_exc, localize, root_class
 from ..mm import ref
 from ..runner import Result, Violation
 
@@ -49,6 +49,71 @@ def judge(mm, name, j, opts):
     return 1, kind, out
 
 
+_CORPUS = {}
+
+
+def _corpus_task(args):
+    i, n, jmod, jname = args
+    import importlib
+    judge = getattr(importlib.import_module(jmod), jname)       # noqa: F811 - the caller's judge
+    mm = get_mm()
+    names = sorted(_CORPUS["data"])[i::n]
+    evals = 0
+    vs = []
+    outcomes = {}
+    import json as _json
+    for fname in names:
+        cls = fname.split("-", 1)[0]
+        if root_class_exists(cls) is False or cls not in mm.envelopes():
+            continue
+        j = _json.loads(_CORPUS["data"][fname])
+        if not mm.valid(j, ref(cls), True):
+            continue            # only values the reference model itself judges valid are C01's subject
+        ne, oc, out = judge(mm, cls, j, {})
+        evals += ne
+        outcomes[oc] = outcomes.get(oc, 0) + 1
+        for v in out:
+            v.replay["source"] = "testdata vector " + fname
+            vs.append(v)
+    return evals, vs, outcomes
+
+
+def root_class_exists(name):
+    return impl.lsp().__dict__.get(name) is not None
+
+
+def corpus_pass(ctx, judge_fn=None):
+    """A second, independent input source: every vector the testdata plugin labels True (wider and more
+    deeply nested messages than the deviation bound reaches), as far as MM agrees that it is valid."""
+    import copy
+    import logging
+    import multiprocessing as mp
+    from .. import docs
+    logging.disable(logging.CRITICAL)
+    try:
+        model = impl.generator_module("generator.model")
+        tg = impl.generator_module("generator.plugins.testdata.testdata_generator")
+        data = tg.generate(model.create_lsp_model([copy.deepcopy(docs.committed())]), logging.getLogger("lspverif-testdata"))
+    except Exception as e:  # noqa: BLE001 - the plugin is C17's subject, not C01's
+        logging.disable(logging.NOTSET)
+        return 0, [], {}, "testdata plugin unavailable: %r" % (e,)
+    logging.disable(logging.NOTSET)
+    _CORPUS["data"] = {k: v for k, v in data.items() if "-True-" in k}
+    W = max(1, min(ctx.workers, 16))
+    with mp.get_context("fork").Pool(W) as pool:
+        jf = judge_fn or judge
+        parts = pool.map(_corpus_task, [(i, W, jf.__module__, jf.__name__) for i in range(W)], chunksize=1)
+    evals = 0
+    vs = []
+    outcomes = {}
+    for e, v, oc in parts:
+        evals += e
+        vs += v
+        for k, n in oc.items():
+            outcomes[k] = outcomes.get(k, 0) + n
+    return evals, vs, outcomes, None
+
+
 def bounds(ctx):
     # (kmin, kmax) for structures / aliases+envelopes
     if ctx.thorough:
@@ -73,15 +138,21 @@ def run(ctx):
     a1, v1 = explore_roots(ctx, judge, roots_s, ks_min, ks_max, opts)
     a2, v2 = explore_roots(ctx, judge, roots_o, ke_min, ke_max, opts)
     res.merge_violations(v1 + v2)
+    c_evals, c_viols, c_outcomes, c_note = corpus_pass(ctx)
+    res.merge_violations(c_viols)
+    if c_note:
+        res.notes.append(c_note)
     capped = a1["capped"] + a2["capped"]
     res.coverage = {
         "states": a1["states"] + a2["states"],
         "transitions": a1["transitions"] + a2["transitions"],
-        "traces_validated_against_impl": a1["evals"] + a2["evals"],
-        "evaluations": a1["evals"] + a2["evals"],
+        "traces_validated_against_impl": a1["evals"] + a2["evals"] + c_evals,
+        "evaluations": a1["evals"] + a2["evals"] + c_evals,
+        "testdata_true_vectors_round_tripped": c_evals, "testdata_vector_outcomes": c_outcomes,
         "distinct_nontrivial": a1["distinct_nt"] + a2["distinct_nt"],
         "rule": "every VSE derivation (deviation-bounded walk of the metamodel grammar) of every root, de-duplicated on "
-                "(root, canonical JSON); non-trivial = cost >= 1 or from the maximal base",
+                "(root, canonical JSON); non-trivial = cost >= 1 or from the maximal base; plus every message the testdata plugin labels True and MM "
+                "judges valid (a second, independently generated set of wide and deeply nested values)",
         "roots": {"structures": len(roots_s), "aliases_and_envelopes": len(roots_o)},
         "bounds": {"structures": {"min_base_k": ks_min, "max_base_k": ks_max},
                    "aliases_envelopes": {"min_base_k": ke_min, "max_base_k": ke_max}},
